@@ -2385,6 +2385,13 @@ def _inline_temp(fn, name, allow_calls=False, ref_calls=None,
         x, (ast.Attribute, ast.Subscript))}
     last = max(x.lineno for x in loads)
     load_ids = {id(x) for x in loads}
+    # `self.<obj>` for every chain self.<obj>.<attr>... read by the value
+    sub_objects = set()
+    for x in ast.walk(val):
+        if isinstance(x, ast.Attribute) and isinstance(x.value, ast.Attribute) \
+                and isinstance(x.value.value, ast.Name) and \
+                x.value.value.id == 'self':
+            sub_objects.add('self.' + x.value.attr)
     for s_ in later:
         if s_.lineno > last:
             break
@@ -2406,6 +2413,21 @@ def _inline_temp(fn, name, allow_calls=False, ref_calls=None,
             if isinstance(x, (ast.Attribute, ast.Subscript)) and isinstance(
                     getattr(x, 'ctx', None), ast.Store) and _n(x) in roots:
                 return False
+            # a property of a mutable sub-object (self.duct.thermal_
+            # conductivity) is not repeatable across a call that updates that
+            # sub-object: `self.duct.update(T)`, or a method of self named
+            # after it (`self._update_duct(T)`)
+            if isinstance(x, ast.Call) and isinstance(x.func, ast.Attribute) \
+                    and sub_objects:
+                recv = _n(x.func.value)
+                if any(recv == so or recv.startswith(so + '.')
+                       or recv.startswith(so + '[') for so in sub_objects):
+                    return False
+                if recv == 'self' and any(
+                        so.split('.')[-1].strip('_') and
+                        so.split('.')[-1].strip('_') in x.func.attr
+                        for so in sub_objects):
+                    return False
     # a definition inside a loop used after the loop: leave alone
     for k, s_ in enumerate(later):
         blk[i + 1 + k] = _Subst({name: val}).visit(s_)
